@@ -1,6 +1,8 @@
 package main
 
 import (
+	"go/ast"
+	"strconv"
 	"fmt"
 	"go/constant"
 	"go/token"
@@ -559,6 +561,18 @@ func (fr *Frame) autoInvariants(li *loopInfo, entryPhi map[*ssa.Phi]Val) {
 		}
 		v0 := fr.fx.name(entryPhi[p].L[0], "Int", "phi0")
 		phi := p
+		if p.Comment == "rangeindex" {
+			// range loops: the hidden index stays below the (loop-invariant) length
+			if iff, ok := b.Instrs[len(b.Instrs)-1].(*ssa.If); ok {
+				if cmp, ok := iff.Cond.(*ssa.BinOp); ok && cmp.Op == token.LSS {
+					if _, has := fr.vals[cmp.Y]; has {
+						bound := cmp.Y
+						li.auto = append(li.auto, &Clause{Kind: "invariant", Tags: []string{"auto"}, Text: "auto: range index below the length", Src: fr.pos(p.Pos()),
+							Auto: func(fr *Frame, st *State) string { return "(< " + fr.vals[phi].L[0] + " " + fr.get(bound).L[0] + ")" }})
+					}
+				}
+			}
+		}
 		li.auto = append(li.auto, &Clause{Kind: "invariant", Tags: []string{"auto"}, Text: fmt.Sprintf("auto: %s >= its initial value", p.Comment), Src: fr.pos(p.Pos()),
 			Auto: func(fr *Frame, st *State) string { return "(>= " + fr.vals[phi].L[0] + " " + v0 + ")" }})
 	}
@@ -925,7 +939,29 @@ func paramTypes(ct *Contract, sig *types.Signature, invoke bool, callee *ssa.Fun
 	for i, n := range names {
 		m[n] = tys[i]
 	}
+	if ct != nil {
+		for _, vw := range ct.Views {
+			if t := viewStaticType(vw); t != nil {
+				m[vw.Name] = t
+			}
+		}
+	}
 	return m
+}
+
+var theEngine *Engine
+
+// viewStaticType: the Go type of a view (only unbox(x, "T") views have one)
+func viewStaticType(vw *View) types.Type {
+	if c, ok := vw.Expr.(*ast.CallExpr); ok {
+		if id, ok := c.Fun.(*ast.Ident); ok && id.Name == "unbox" && len(c.Args) == 2 {
+			if lit, ok := c.Args[1].(*ast.BasicLit); ok {
+				s, _ := strconv.Unquote(lit.Value)
+				return theEngine.typeByName(s)
+			}
+		}
+	}
+	return nil
 }
 
 func contractParams(ct *Contract, sig *types.Signature, invoke bool, callee *ssa.Function) ([]string, []types.Type) {
